@@ -10,6 +10,7 @@ import (
 	"testing"
 
 	"github.com/robinbraemer/event"
+	"go.minekube.com/gate/pkg/edition/java/auth"
 	"go.minekube.com/gate/pkg/edition/java/config"
 	"go.minekube.com/gate/pkg/edition/java/netmc"
 	"go.minekube.com/gate/pkg/edition/java/proto/packet"
@@ -125,7 +126,19 @@ func (r *c10Registrar) unregisterConnection(*connectedPlayer) bool { return true
 type c10LoginCase struct {
 	Username []byte `json:"username"` // bytes so that any string survives JSON
 	Protocol int    `json:"protocol"`
+	// Online: the proxy runs in online mode (the production default). The username
+	// check is the same in both modes; in online mode an accepted name is answered
+	// with an EncryptionRequest instead of the hand-over to the auth session.
+	Online bool `json:"online,omitempty"`
 }
+
+var c10Auth = func() auth.Authenticator {
+	a, err := auth.New(auth.Options{})
+	if err != nil {
+		panic(err)
+	}
+	return a
+}()
 
 var c10Protocols = []proto.Protocol{
 	version.Minecraft_1_7_2.Protocol, version.Minecraft_1_8.Protocol, version.Minecraft_1_16_4.Protocol,
@@ -139,7 +152,7 @@ func c10LoginRun(c c10LoginCase) verifkit.Result {
 	protocol := proto.Protocol(c.Protocol)
 
 	cfg := config.DefaultConfig
-	cfg.OnlineMode = false
+	cfg.OnlineMode = c.Online
 	cfg.Forwarding.Mode = config.NoneForwardingMode
 	cfg.Compression.Threshold = -1
 	cfg.ForceKeyAuthentication = false
@@ -147,6 +160,7 @@ func c10LoginRun(c c10LoginCase) verifkit.Result {
 		registrar:      &c10Registrar{},
 		eventMgr:       event.Nop,
 		configProvider: c10Cfg{&cfg},
+		authenticator:  c10Auth,
 	}
 	ctx, cancel := context.WithCancel(context.Background())
 	defer cancel()
@@ -164,6 +178,25 @@ func c10LoginRun(c c10LoginCase) verifkit.Result {
 		labels = append(labels, "deny")
 	}
 	nt := c10NearBoundary(name, &labels)
+
+	if c.Online {
+		// online mode: an accepted name gets an EncryptionRequest and the connection
+		// stays open; a rejected one is disconnected without any EncryptionRequest.
+		labels = append(labels, "online-mode")
+		encReq := 0
+		for _, p := range conn.written {
+			if _, ok := p.(*packet.EncryptionRequest); ok {
+				encReq++
+			}
+		}
+		switch {
+		case want && (conn.closed > 0 || encReq != 1):
+			return verifkit.Fail("login:valid-denied", "online mode: username %q (2..16 of [A-Za-z0-9_]) was not answered with one EncryptionRequest (closed=%d requests=%d written=%s)", name, conn.closed, encReq, c10Types(conn.written))
+		case !want && (conn.closed == 0 || encReq != 0 || len(conn.handlers) != 0):
+			return verifkit.Fail("login:invalid-accepted", "online mode: username %q passed the login username check (closed=%d encryption requests=%d handlers=%d)", name, conn.closed, encReq, len(conn.handlers))
+		}
+		return verifkit.Result{NonTrivial: nt, Labels: labels}
+	}
 
 	accepted := len(conn.handlers) == 1 && conn.closed == 0
 	denied := len(conn.handlers) == 0 && conn.closed > 0
@@ -333,11 +366,12 @@ func c10GenUsername(t *rapid.T) []byte {
 
 func TestVerif_C10(t *testing.T) {
 	verifkit.Check(t, "C10", "login",
-		"usernames: valid names, valid alphabet at lengths 0/1/2/3/15/16/17/18/32, one substitution or insertion of a byte adjacent to the class boundaries / whitespace / NUL / newline / look-alike Unicode / invalid UTF-8, multi-line tricks, full-byte-alphabet and printable strings of 0..20; x 10 protocol versions 1.7.2..26.1; the real handleServerLogin (offline mode, forwarding none) must hand over iff 2..16 bytes of [A-Za-z0-9_]; the offline profile, and for >=1.20.2 the LoginSuccess packet and the registered player identity, must carry the reference MD5 v3 UUID and the unchanged name; non-trivial = name within one edit of the accept boundary",
+		"usernames: valid names, valid alphabet at lengths 0/1/2/3/15/16/17/18/32, one substitution or insertion of a byte adjacent to the class boundaries / whitespace / NUL / newline / look-alike Unicode / invalid UTF-8, multi-line tricks, full-byte-alphabet and printable strings of 0..20; x 10 protocol versions 1.7.2..26.1; the real handleServerLogin (offline mode in 2/3 of the cases, online mode in 1/3: accepted = exactly one EncryptionRequest and the connection open; forwarding none) must accept iff 2..16 bytes of [A-Za-z0-9_]; the offline profile, and for >=1.20.2 the LoginSuccess packet and the registered player identity, must carry the reference MD5 v3 UUID and the unchanged name; non-trivial = name within one edit of the accept boundary",
 		func(t *rapid.T) c10LoginCase {
 			return c10LoginCase{
 				Username: c10GenUsername(t),
 				Protocol: int(rapid.SampledFrom(c10Protocols).Draw(t, "protocol")),
+				Online:   rapid.IntRange(0, 2).Draw(t, "online") == 0,
 			}
 		}, c10LoginRun)
 }
